@@ -121,7 +121,8 @@ section Pratt
 open P
 
 /-- PRECEDENCE AND ASSOCIATIVITY, FOR EVERY EXPRESSION TREE. Take any tree over atoms (identifiers, integer,
-    string and boolean literals), registered binary operators and prefix operators (`!`, `-`); print it with the minimal parentheses that the
+    string and boolean literals), registered binary operators, prefix operators (`!`, `-`) and index expressions
+    `a[i]`, `a[i][j]` (any expression as the index; chains over an atom as the indexed operand); print it with the minimal parentheses that the
     precedence table and LEFT associativity require (left operand at the operator's level, right operand one level
     tighter, the operand of a prefix operator tighter than every binary operator); put the tokens anywhere in a token array, followed by a token of lowest binding power. Then
     `parseExpression` at the lowest precedence returns exactly that tree, leaves the cursor on the expression's last
@@ -131,9 +132,10 @@ theorem C06_pratt_round_trip (e : PE) (s : PS) (f : Nat) (hwf : e.WF) (eo : EofO
     (hat : At s s.pos (pr (Gen.LOWEST + 1) e))
     (hnext : precOf (tokAt s (s.pos + (pr (Gen.LOWEST + 1) e).length)).type = Gen.LOWEST)
     (hna : (tokAt s (s.pos + (pr (Gen.LOWEST + 1) e).length)).type ≠ .ASSIGN)
+    (hnd : (tokAt s (s.pos + (pr (Gen.LOWEST + 1) e).length)).type ≠ .DOT)
     (hf : 14 + P.C * rem s ≤ f) :
     parseExpression f Gen.LOWEST s = .ok (some e.toExpr, s.at (s.pos + (pr (Gen.LOWEST + 1) e).length - 1)) :=
-  parse_print e s f hwf eo hat hnext hna hf
+  parse_print e s f hwf eo hat hnext hna hnd hf
 
 /-- flat left-associative chain: a o1 b o2 c with equal binding power prints without parentheses as the LEFT-nested tree -/
 theorem C06_print_left_assoc (o1 o2 lp rp a b c : Token) (xa xb xc : Expr) (h : precOf o1.type = precOf o2.type)
@@ -199,7 +201,27 @@ example : parseExpression 400 Gen.LOWEST sDemo = .ok (some eDemo.toExpr, sDemo.a
     apply C06_print_left_assoc <;> decide
   have := parse_print eDemo sDemo 400 hwf rfl
     (by rw [hpr]; intro k hk; rcases k with _|_|_|_|_|k <;> first | rfl | (simp at hk; omega))
-    (by rw [hpr]; decide) (by rw [hpr]; decide) (by decide)
+    (by rw [hpr]; decide) (by rw [hpr]; decide) (by rw [hpr]; decide) (by decide)
+  rw [hpr] at this
+  exact this
+
+/-! non-vacuity for index expressions: `- a[1 - 2][3] * b %>` parses as `(-(a[1 - 2][3])) * b` -/
+def tId (c : UInt8) : Token := { type := .IDENT, lit := [c], line := 1 }
+def tLB : Token := { type := .LBRACKET, lit := [91], line := 1 }
+def tRB : Token := { type := .RBRACKET, lit := [93], line := 1 }
+def aA : PE := .atom (tId 97) (.ident { tok := tId 97, segs := [[97]] })
+def aB : PE := .atom (tId 98) (.ident { tok := tId 98, segs := [[98]] })
+def eIdx : PE := .bin tStar tLP tRP (.pre tMinus (.idx tLB tRB (.idx tLB tRB aA (.bin tMinus tLP tRP a1 a2)) a3)) aB
+def sIdx : PS := { toks := #[tMinus, tId 97, tLB, tI 49, tMinus, tI 50, tRB, tLB, tI 51, tRB, tStar, tId 98, tEnd], eof := tEOF }
+
+example : parseExpression 1000 Gen.LOWEST sIdx = .ok (some eIdx.toExpr, sIdx.at 11) := by
+  have hwf : eIdx.WF := by
+    refine ⟨by decide, by decide, rfl, rfl, ⟨by decide, rfl, rfl, rfl, ⟨rfl, rfl, rfl, ?_, ⟨by decide, by decide, rfl, rfl, ?_, ?_⟩⟩, ?_⟩, ?_⟩ <;> rfl
+  have hpr : pr (Gen.LOWEST + 1) eIdx = [tMinus, tId 97, tLB, tI 49, tMinus, tI 50, tRB, tLB, tI 51, tRB, tStar, tId 98] := by
+    decide
+  have := parse_print eIdx sIdx 1000 hwf rfl
+    (by rw [hpr]; intro k hk; rcases k with _|_|_|_|_|_|_|_|_|_|_|_|k <;> first | rfl | (simp at hk; omega))
+    (by rw [hpr]; decide) (by rw [hpr]; decide) (by rw [hpr]; decide) (by decide)
   rw [hpr] at this
   exact this
 
